@@ -3,7 +3,7 @@
 //   decode(encode(p)) == p (Debug form) and re-encodes to the same bytes; a proper prefix and a file with trailing
 //   bytes are refused with Err; a corrupted file never crashes the decoder (checked in a child process, because an
 //   abort cannot be caught) and is either refused or decodes to the same program.
-use dora_bytecode::{decode_program_from_bytes, BytecodeTraitType, BytecodeType, BytecodeTypeArray, Program};
+use dora_bytecode::{decode_program_from_bytes, read_program_from_file, BytecodeTraitType, BytecodeType, BytecodeTypeArray, Program};
 use dora_compiler::wire::{decode_bytecode_type, encode_bytecode_type, ByteBuffer, ByteReader};
 use dora_frontend::sema::{Sema, SemaCreationParams};
 use dora_frontend::{check_program, emit_program};
@@ -113,6 +113,28 @@ fn check_program_text(text: &str, rng: &mut Rng, scratch: &str) -> Result<bool, 
     longer.push(0);
     if !matches!(std::panic::catch_unwind(|| decode_program_from_bytes(&longer).is_err()), Ok(true)) {
         return Err("a package with a trailing byte is accepted or panics".to_string());
+    }
+    // the same through the file entry point the compiler binaries use (read_program_from_file)
+    let file_path = format!("{}/pkg.bin", scratch);
+    let via_file = |data: &[u8]| -> Result<Option<Vec<u8>>, String> {
+        std::fs::write(&file_path, data).map_err(|e| e.to_string())?;
+        match std::panic::catch_unwind(|| read_program_from_file(std::path::Path::new(&file_path))) {
+            Ok(Ok(p)) => Ok(Some(encode(&p))),
+            Ok(Err(_)) => Ok(None),
+            Err(_) => Err("read_program_from_file panics".to_string()),
+        }
+    };
+    match via_file(&bytes)? {
+        Some(b) if b == bytes => {}
+        Some(_) => return Err("a package file the compiler wrote reads back (read_program_from_file) as a different program".to_string()),
+        None => return Err("a package file the compiler wrote is refused by read_program_from_file".to_string()),
+    }
+    if via_file(&longer)?.is_some() { return Err("a package FILE with a trailing byte is accepted by read_program_from_file".to_string()); }
+    let mut two = bytes.clone();
+    two.extend_from_slice(&bytes);
+    if via_file(&two)?.is_some() { return Err("a package FILE followed by a second package is accepted by read_program_from_file".to_string()); }
+    for c in [0usize, 1, bytes.len() / 2, bytes.len() - 1] {
+        if via_file(&bytes[..c])?.is_some() { return Err(format!("a package FILE truncated to {} of {} bytes is accepted by read_program_from_file", c, bytes.len())); }
     }
     // corrupted files: never a crash (child process: an allocation failure aborts and cannot be caught)
     let ref_path = format!("{}/ref.bin", scratch);
